@@ -7,12 +7,8 @@ import checks
 ALL = ['C%02d' % i for i in range(1, 29)]
 NA = {
  'C02': 'DHP: as C01, plus free-list-backed block allocators; not encoded',
- 'C04': 'user-space RCU: gp/sh singletons with std::mutex, condition variables, signals and a disposer thread are outside what the translator stubs; not encoded',
- 'C05': 'as C04',
- 'C06': 'MS/Moir/Basket/Optimistic/RW/FC queues need the HP/DHP singleton (C01) or the flat-combining kernel (C23) encoded first; not encoded',
  'C08': 'SegmentedQueue needs the HP singleton encoded; not encoded',
  'C10': 'FCDeque: flat-combining kernel (thread-local publication records via boost/std TLS, std::deque) beyond the translator; not encoded',
- 'C11': 'MSPriorityQueue/FCPriorityQueue concurrent harness not built; only the slot counter is decided (C26)',
  'C13': 'ordered lists over HP/DHP/RCU need the SMR singletons encoded; not encoded',
  'C14': 'pointer-rich hash containers with growth under every interleaving: out of reach of bounded symbolic execution at useful bounds (DESIGN.md 6); addressing arithmetic is decided under C27/C28',
  'C15': 'skip lists / Ellen tree / Bronson AVL under every interleaving: out of reach (DESIGN.md 6)',
@@ -33,6 +29,10 @@ TEXT = {
  'C01': ('model_checking', 'HP scheme: (1) the real basic_smr::classic_scan / inplace_scan run once from an arbitrary valid pre-state chosen by the solver (2-3 thread records, 1-2 hazard slots each holding any object or nothing, owned or detached records, any subset of 2-4 objects retired in any order): no protected object is disposed, every unprotected retired object is disposed exactly once, the retired array stays well-formed; (2) reader Guard::protect()+dereference || writer unlink+retire()+pass under every schedule with at most K-1 context switches'),
  'C03': ('model_checking', 'HP scheme only: same queries as C01 - exactly-once disposal by a pass for every retired object no guard protects, nothing disposed twice or unretired, and after the guards are dropped the next pass disposes the rest (DHP not encoded)'),
  'C09': ('model_checking', 'all schedules with at most K-1 context switches of 2 threads x 1 solver-chosen push/pop (3 threads and 2 operations per thread in the thorough tier) on the real container:: and intrusive::TreiberStack over the real hazard-pointer Guard/retire (pre-filled by solver choice; popped nodes are really freed by a pass right after the pop, so use-after-free shows as a deallocated-object dereference); history linearizable to a LIFO, items conserved; elimination back-off and FCStack are outside the claim'),
+ 'C06': ('model_checking', 'all schedules with at most K-1 context switches of 2 threads x 1 solver-chosen enqueue/dequeue on a queue pre-filled by solver choice, history linearizable to a FIFO (each item dequeued at most once, none invented, empty only if empty at some instant), items conserved: RWQueue in the quick tier; the real container::MSQueue, MoirQueue, BasketQueue and OptimisticQueue over the real hazard-pointer Guard/retire (hp_env.h, nodes really freed right after the dequeue) in the thorough tier (about 20 min per queue); FCQueue, DHP and more operations per thread are outside the claim'),
+ 'C11': ('model_checking', 'MSPriorityQueue (intrusive, heap capacities 1, 3, 7): every sequential script of 5-6 solver-chosen push/pop calls with solver-chosen, also equal, priorities against a multiset model (pop returns a maximal item, push fails exactly at capacity, size/empty/full, ordered drain); thorough tier: 2 threads push||push and pop||pop linearizable to a bounded max-priority queue, mixed push||pop conservation and well-formed heap at quiescence, under every schedule with at most K-1 context switches; FCPriorityQueue outside the claim'),
+ 'C04': ('model_checking', 'general_instant (quick) and general_buffered (thorough): the real access_lock/access_unlock (with nesting), flip_and_wait/check_grace_period, synchronize(), retire_ptr() and the real cds::threading::Manager thread records; reader(s) || updater(s) (2-3 threads, 1-2 updates/reads each) under every schedule with at most K-1 context switches: an object read inside a read-side critical section is never disposed before the reader leaves the outermost section; general_threaded and signal_buffered are outside the claim'),
+ 'C05': ('model_checking', 'same queries as C04 for general_instant / general_buffered: every retired object is disposed exactly once (general_instant: before retire_ptr returns; both: by the time Destruct() returns), nothing that was not retired is disposed; the threaded and signal flavours are outside the claim'),
  'C24': ('model_checking', 'all schedules with at most K-1 context switches of 2-3 threads x 1-2 solver-chosen allocate/deallocate steps on the real vyukov_queue_pool, lazy_vyukov_queue_pool, bounded_vyukov_queue_pool and pool_allocator (capacity 2, driven past capacity where the pool allows it) from a solver-chosen pre-state of held objects; ghost set of allocated objects (no double hand-out), quiescent re-allocation of every pooled object'),
  'C21': ('model_checking', 'all schedules with at most K-1 context switches of 2 threads x 1-2 get/put steps (3 threads x 1 in the thorough tier) on the real FreeList, TaggedFreeList and CachedFreeList with 2 nodes; initial ownership chosen by the solver; ghost-ownership oracle (no double hand-out), final drain (no node lost)'),
  'C12': ('model_checking', 'sequential: every script of 5-6 solver-chosen API calls with solver-chosen batch/record sizes on the real WeakRingBuffer<T> (capacity 4, static and dynamic buffer) and WeakRingBuffer<void> (32 bytes) against a FIFO/record model incl. the exact refusal conditions and record bytes; concurrent: producer || consumer, every schedule with at most K-1 context switches, history linearizable to the bounded FIFO (batch) / record FIFO'),
